@@ -873,7 +873,12 @@ def run_c11(rep, tier, seed):
         rep.count("forced_interleavings")
         rep.nontrivial(["c11f", name])
         ok, want = pred(ans[1:])
-        if not ok:
+        waits = [(l, a) for l, a in zip(script, ans) if l.startswith("np.wait")]
+        if not ok and any(not a.startswith("parked") for _, a in waits):
+            # no thread stopped at the schedule point: the interleaving could not be forced (the code no longer passes the
+            # point this way); that breaks the tie of this scenario to the code and says nothing about the property itself
+            rep.violation("correspondence", dict(what=f"forced interleaving `{name}` can no longer be forced: {waits}", script=script, answers=ans, expected=want, observed=";".join(ans[1:])[:600]))
+        elif not ok:
             rep.violation("oracle", dict(what=f"forced interleaving `{name}`: not consistent with any single order of the commands", script=script, answers=ans, expected=want, observed=";".join(ans[1:])[:600]))
     shutil.rmtree(root, ignore_errors=True)
     rep.cov["rule"] = ("2-8 client connections issue SET (unique values, 8..38 bytes or 9000 bytes) / GET / single-key DEL on 1-3 keys concurrently against the real server (4 worker threads + blocking pool) "
